@@ -467,7 +467,7 @@ func generate(rng *rand.Rand, tier string) []interface{} {
 		rs = append(rs, splits(rev)...)
 		add(input{Kind: "rosters", Label: "regroup-all", Rosters: rs})
 	}
-	nr := 4
+	nr := 8
 	if !quick {
 		nr = 40
 	}
@@ -496,9 +496,9 @@ func generate(rng *rand.Rand, tier string) []interface{} {
 
 	// ---- trees
 	{
-		maxN := 6
+		maxN := 8
 		if !quick {
-			maxN = 8
+			maxN = 9
 		}
 		keys := edKeys(0, maxN)
 		ros := [][]mem{plainRoster(keys)}
@@ -544,7 +544,7 @@ func generate(rng *rand.Rand, tier string) []interface{} {
 			}
 		}
 		add(input{Kind: "trees", Label: "placements-repeat", Rosters: ros, Trees: ts})
-		if !quick {
+		{
 			k5 := edKeys(0, 5)
 			ros5 := [][]mem{plainRoster(k5)}
 			for _, s := range shapes(5) {
@@ -556,7 +556,7 @@ func generate(rng *rand.Rand, tier string) []interface{} {
 			}
 		}
 	}
-	nt := 4
+	nt := 8
 	maxSize := 25
 	if !quick {
 		nt, maxSize = 40, 150
@@ -639,7 +639,10 @@ func generate(rng *rand.Rand, tier string) []interface{} {
 			{{K: 0, S: []int{20}}, {K: 1}, {K: 2}, {K: 3}, {K: 4}}, plainRoster(keys),
 			{{K: 0, S: []int{1}}, {K: 2}, {K: 3}, {K: 4}}}
 		var ts []treeIn
-		for _, s := range shapes(4) {
+		// shapes that differ in their pre-order leaf pattern (no F15 pair among them)
+		star := node{C: []node{{}, {}, {}}}
+		chain := node{C: []node{{C: []node{{C: []node{{}}}}}}}
+		for _, s := range append(append([]node{}, shapes(3)...), star, chain) {
 			for r := range ros {
 				ts = append(ts, treeIn{Ro: r, T: labelled(s, keys)})
 			}
@@ -649,7 +652,7 @@ func generate(rng *rand.Rand, tier string) []interface{} {
 	add(malformedTrees())
 
 	// ---- tokens
-	ng := 3
+	ng := 5
 	if !quick {
 		ng = 30
 	}
